@@ -176,8 +176,8 @@ def main(tier):
             rep.violation(sig, det)
     rep.coverage["fault_differential_runs_per_mode"] = nf
     run_spec(rep, differential(c05.C05Spec)(tier if tier == "thorough" else "quick"), "C05-alphabet-both-modes",
-             time_cap=400 if tier == "quick" else 3000)
-    run_spec(rep, differential(c11.C11Spec)("quick"), "C11-alphabet-both-modes", time_cap=400 if tier == "quick" else 3000)
+             time_cap=150 if tier == "quick" else 3000)
+    run_spec(rep, differential(c11.C11Spec)("quick"), "C11-alphabet-both-modes", time_cap=150 if tier == "quick" else 3000)
     results = run_scenarios(rep, mp_scenarios(tier))
     from .. import tscen
     tot = {"executions": 0, "states": 0, "transitions": 0}
